@@ -354,6 +354,36 @@ def s6(ctx, rep):
     rep.put(ok, "S6", "agreement", "SimulatorState.remove_events: filtered heap stored back", r, comp[0], "")
 
 
+def s6b(ctx, rep):
+    """guard table for delivery (found thin by the generic mutation audit)"""
+    from .common import require_guard, call_nodes, dom_guard
+    P = ctx.P
+    f = P.method("TrialBackend", "fetch_status_results")
+    cfg = cfg_of(f)
+    # new metrics are taken from the trial's list only if the trial is not paused / stopping / stopped
+    take = [n.id for n in cfg.nodes if n.kind == "stmt" and isinstance(n.ast, ast.Assign) and isinstance(n.ast.value, ast.Subscript)
+            and isinstance(n.ast.value.slice, ast.Slice) and U(n.ast.value.value).endswith(".metrics")]
+    hidden = {"Status.paused", "Status.stopping", "Status.stopped"}
+
+    def not_hidden(a):
+        if a[0] == "in" and a[3] is False and a[1].endswith(".status"):
+            try:
+                return {U(e) for e in ast.parse(a[2], mode="eval").body.elts} == hidden
+            except Exception:
+                return False
+        return False
+    require_guard(ctx, rep, "S3", f, "TrialBackend.fetch_status_results: new metrics are taken | status not in {paused, stopping, stopped}", take,
+                  [("status not in [paused, stopping, stopped]", not_hidden)],
+                  "results written after a stop / pause decision are delivered to the scheduler (or results of running trials are hidden)")
+    g = P.method("SimulatorBackend", "_process_events_until_now")
+    for ev, handler in (("StartEvent", "_process_start_event"), ("CompleteEvent", "_process_complete_event"), ("StopEvent", "_process_stop_event"),
+                        ("OnTrialResultEvent", "_process_on_trial_result_event")):
+        nodes = [n for n, c in call_nodes(ctx, g, lambda c, h=handler: fn_name(c) == h)]
+        require_guard(ctx, rep, "S6", g, f"SimulatorBackend._process_events_until_now: {handler} | isinstance(event, {ev})", nodes,
+                      [(f"isinstance(event, {ev})", lambda a, e=ev: a[0] == "isinstance" and a[2] == e and a[3] is True)],
+                      "an event is processed by the handler of another event type: results, stops and completions of a trial are mixed up")
+
+
 def s7(ctx, rep):
     P = ctx.P
     attr = "_resource_paused_for_trial"
@@ -460,5 +490,6 @@ def run(ctx, rep, tier="quick"):
     s4(ctx, rep)
     s5(ctx, rep)
     s6(ctx, rep)
+    s6b(ctx, rep)
     s7(ctx, rep)
     s8(ctx, rep)
